@@ -59,9 +59,11 @@ class C06(Check):
         "S7": "vetted tables: every KNOWN_FNS / KNOWN_CONSTANTS entry whose key is in the reference table maps to a semantically equal sympy object",
         "S8": "failure is visible: the translator converts only its declared refusal exceptions to None (with a warning); every call site of "
               "fn_to_sympy on a claimed path tests the result for None (or uses it arithmetically) before formatting/storing it",
+        "S10": "presence tests: a value fetched from the symbol table (ctx.symbols.get / lookup results) is tested with `is None` / "
+               "`in`, never by truthiness - a translated value can be a falsy sympy zero, which a truthiness test mistakes for 'absent'",
         "S9": "tuple assignment evaluates all right-hand sides before binding any target",
     }
-    floors = {"S1": 6, "S2": 3, "S3": 2, "S4": 1, "S5": 2, "S6": 1, "S7": 60, "S8": 8, "S9": 1}
+    floors = {"S1": 6, "S2": 3, "S3": 2, "S4": 1, "S5": 2, "S6": 1, "S7": 60, "S8": 8, "S9": 1, "S10": 3}
     decided = [
         "constructs outside the supported subset make the translation fail visibly instead of being skipped",
         "conditionals: branches cannot see each other's assignments; code after an if/else is applied to every branch",
@@ -103,6 +105,7 @@ class C06(Check):
         self.s6(entry)
         self.s7(mod)
         self.s8(mod, entry)
+        self.s10(mod)
 
     def _chains_after(self, fn, node, var):
         out = []
@@ -384,6 +387,51 @@ class C06(Check):
                         self.violated("S8", rel, fname, cons, c, f"a failed translation (None) is not detected here: {why}",
                                       witness="an untranslatable function is printed as `None` / stored as None instead of raising")
 
+    def s10(self, mod) -> None:
+        """Truthiness tests on values that may be symbolic expressions."""
+        sources = ("ctx.symbols.get(", "symbols.get(", "_handle_expr(", "fn_to_sympy(", "_handle_call(", "_handle_attribute(", "_handle_name(")
+        for name, fn in mod.functions.items():
+            if "." in name:
+                continue
+            maybe_expr: dict[str, ast.AST] = {}
+            for n in walk_no_nested(fn):
+                pairs = []
+                if isinstance(n, ast.Assign) and isinstance(n.targets[0], ast.Name):
+                    pairs = [(n.targets[0].id, n.value)]
+                elif isinstance(n, ast.NamedExpr):
+                    pairs = [(n.target.id, n.value)]
+                for t, v in pairs:
+                    if isinstance(v, ast.Call) and any(norm(v).startswith(src) for src in sources):
+                        maybe_expr[t] = v
+            if not maybe_expr:
+                continue
+            bad = None
+            n_tests = 0
+            for n in walk_no_nested(fn):
+                tests = []
+                if isinstance(n, (ast.If, ast.While, ast.IfExp)):
+                    tests = [n.test]
+                elif isinstance(n, ast.Assert):
+                    tests = [n.test]
+                for t in tests:
+                    for sub in ([t] + ([t.operand] if isinstance(t, ast.UnaryOp) and isinstance(t.op, ast.Not) else []) +
+                                (list(t.values) if isinstance(t, ast.BoolOp) else [])):
+                        inner = sub.operand if isinstance(sub, ast.UnaryOp) and isinstance(sub.op, ast.Not) else sub
+                        if isinstance(inner, ast.Name) and inner.id in maybe_expr:
+                            bad = bad or (n, inner.id)
+                        if isinstance(inner, ast.NamedExpr) and isinstance(inner.value, ast.Call) and any(norm(inner.value).startswith(src) for src in sources):
+                            bad = bad or (n, inner.target.id)
+                        if isinstance(inner, ast.Compare) and any(isinstance(x, ast.Name) and x.id in maybe_expr or isinstance(x, ast.NamedExpr) for x in ast.walk(inner)):
+                            n_tests += 1
+            if bad:
+                node, var = bad
+                self.violated("S10", MOD, name, f"truthiness-of {var}", node,
+                              f"`{norm(node.test)[:70]}` tests a translated value by truthiness: a value that is exactly zero (e.g. `leak = 0.0`, or a difference "
+                              "that cancels) is treated as missing",
+                              witness="def f(x): leak = 0.0; return x + leak  with a module-level float also called `leak`: the module constant is used instead of the local 0.0")
+            else:
+                self.holds("S10", MOD, name, "presence-tests", fn, f"{len(maybe_expr)} looked-up value(s); none is tested by truthiness ({n_tests} explicit None/compare tests)")
+
     # ------------------------------------------------------------------
     def must_fire(self):
         B = "_handle_block"
@@ -407,6 +455,8 @@ class C06(Check):
             Variant("tuple-sequential-binding", MOD, B,
                     "                for target, expr in zip(target_elements, values, strict=True):\n                    ctx.symbols[cast(ast.Name, target).id] = expr",
                     "                for target, value_expr in zip(target_elements, node.value.elts, strict=True):\n                    ctx.symbols[cast(ast.Name, target).id] = _handle_expr(value_expr, ctx)", expect="S9|"),
+            Variant("truthiness-lookup", MOD, "_handle_name", "    value = ctx.symbols.get(node.id)\n    if value is None:", "    value = ctx.symbols.get(node.id)\n    if not value:", expect="S10|", quick=True),
+            Variant("truthiness-call-args", MOD, "_handle_call", "        if (expr := _handle_expr(i, ctx)) is None:\n            return None", "        if not (expr := _handle_expr(i, ctx)):\n            return None", expect="S10|"),
             Variant("mxlpy-codegen-no-none-check", "meta/codegen_mxlpy.py", "_fn_to_symbolic_repr", "    if (expr := fn_to_sympy(fn, origin=k, model_args=args)) is None:\n        msg = f\"Unable to parse fn for '{k}'\"\n        raise ValueError(msg)\n",
                     "    expr = fn_to_sympy(fn, origin=k, model_args=args)\n", expect="S8|"),
         ]
